@@ -55,6 +55,23 @@ class ArmingStream(MonitoredStream):
         return d
 
 
+class NonSeekableStream(io.RawIOBase):
+    def __init__(self, data):
+        io.RawIOBase.__init__(self)
+        self._b = io.BytesIO(data)
+
+    def readable(self):
+        return True
+
+    def seekable(self):
+        return False
+
+    def readinto(self, b):
+        d = self._b.read(len(b))
+        b[:len(d)] = d
+        return len(d)
+
+
 def line_bound(data):
     low = data.lower()
     if any(w.lower() in low for w in WIDE) or b'encoding=' not in low:
@@ -141,6 +158,19 @@ def check_input(data, obs, names=('?',), base=None, real_file=False):
                 obs.violation('stream_left_open:%s' % (
                     'after_success' if dexc is None else 'after_failure'),
                     case)
+            if len(data) % 7 == 0:
+                # forward-only stream (pipe / HTTP body): whatever the
+                # loader makes of it, it must close what it was given
+                ns = NonSeekableStream(data)
+                try:
+                    DiffX.from_stream(ns)
+                except Exception:
+                    pass
+                obs.count('stream_closed_checked')
+                obs.count('non_seekable_streams')
+                if not ns.closed:
+                    obs.violation('stream_left_open:non_seekable_stream',
+                                  case)
             if real_file:
                 d = os.path.join(env.OUT, 'tmp')
                 os.makedirs(d, exist_ok=True)
